@@ -569,6 +569,33 @@ pub fn c01_battery<S: Src>(_s: &mut S) {
               "82581d60 00000000000000000000000000000000000000000000000000000000 8200a0".replace(" ", "").as_str()] {
         check("TransactionOutput", unhex(h), &out);
     }
+    // text-bearing leaves at and around their length limits: whatever the constructors accept must survive encode -> decode,
+    // on its own and nested (pool metadata in pool parameters in a certificate, anchors, relay host names)
+    for len in [0usize, 1, 23, 24, 63, 64, 65, 100, 127, 128] {
+        let text: String = "u".repeat(len);
+        if let Ok(url) = URL::new(text.clone()) {
+            let pm = PoolMetadata::new(&url, &PoolMetadataHash::from([3u8; 32]));
+            let b = pm.to_bytes();
+            match PoolMetadata::from_bytes(b.clone()) { Ok(q) => if q.to_bytes() != b { failures.borrow_mut().push(format!("PoolMetadata with a {}-byte url changes through decode", len)); },
+                Err(_) => failures.borrow_mut().push(format!("PoolMetadata with a {}-byte url (accepted by the constructor) does not decode from its own encoding", len)) }
+            let mut owners = Ed25519KeyHashes::new(); owners.add(&kh(1));
+            let pp = PoolParams::new(&kh(1), &VRFKeyHash::from([2u8; 32]), &bn(1), &bn(2), &UnitInterval::new(&bn(1), &bn(2)), &RewardAddress::new(0, &kc(1)), &owners, &Relays::new(), Some(pm.clone()));
+            let cert = Certificate::new_pool_registration(&PoolRegistration::new(&pp));
+            let cb = cert.to_bytes();
+            if Certificate::from_bytes(cb.clone()).map(|x| x.to_bytes()).ok() != Some(cb) { failures.borrow_mut().push(format!("pool registration whose metadata url has {} bytes does not round-trip", len)); }
+            let an = Anchor::new(&url, &AnchorDataHash::from([4u8; 32]));
+            let ab = an.to_bytes();
+            if Anchor::from_bytes(ab.clone()).map(|x| x.to_bytes()).ok() != Some(ab) { failures.borrow_mut().push(format!("Anchor with a {}-byte url does not round-trip", len)); }
+        }
+        if let Ok(d) = DNSRecordAorAAAA::new(text.clone()) {
+            let r = SingleHostName::new(Some(1), &d); let rb = r.to_bytes();
+            if SingleHostName::from_bytes(rb.clone()).map(|x| x.to_bytes()).ok() != Some(rb) { failures.borrow_mut().push(format!("SingleHostName with a {}-byte name does not round-trip", len)); }
+        }
+        if let Ok(d) = DNSRecordSRV::new(text.clone()) {
+            let r = MultiHostName::new(&d); let rb = r.to_bytes();
+            if MultiHostName::from_bytes(rb.clone()).map(|x| x.to_bytes()).ok() != Some(rb) { failures.borrow_mut().push(format!("MultiHostName with a {}-byte name does not round-trip", len)); }
+        }
+    }
     // ProtocolParamUpdate: every optional field on its own, adjacent pairs and all together
     {
         let ui = UnitInterval::new(&bn(1), &bn(2));
